@@ -40,4 +40,10 @@ T0(kk) == Term(kk) >= 0
 NT(kk) == IF T0(kk) THEN Term(kk) \div 3 ELSE 0
 \* triangles of case kk as triples of cube-edge ids
 Tris(kk) == [i \in 1..NT(kk) |-> <<Row(kk)[3 * i - 2], Row(kk)[3 * i - 1], Row(kk)[3 * i]>>]
+
+\* the same, evaluated once (TLC pre-evaluates constant definitions); rows are cut into
+\* explicit tuples so that nothing is left lazy
+RECURSIVE CutRow(_, _, _)
+CutRow(r, i, n) == IF i > n THEN <<>> ELSE <<SubSeq(r, 3 * i - 2, 3 * i)>> \o CutRow(r, i + 1, n)
+TrisT == [kk \in Cases |-> CutRow(Row(kk), 1, NT(kk))]
 =============================================================================
